@@ -307,9 +307,9 @@ void Node::RemoveOutEdge(Edge* edge) {
 }
 
 void Node::UpdatePhonyMtime(TimeStamp mtime) {
-  if (!exists()) {
-    mtime_ = std::max(mtime_, mtime);
-  }
+  // Also when a file or directory with the alias' name happens to exist: its
+  // own mtime must not hide newer inputs from what depends on the alias.
+  mtime_ = std::max(mtime_, mtime);
 }
 
 bool DependencyScan::RecomputeDirty(Node* initial_node,
